@@ -566,7 +566,7 @@ pub fn check_signals(name: &str, r: &mut SigRef, c: &C5, vals: &[f64], sigs: &[A
 	Ok(())
 }
 
-fn run(c: &SCase, st: &mut Stats) -> CaseResult {
+pub fn run(c: &SCase, st: &mut Stats) -> CaseResult {
 	let cfg = cfggen::instantiate(&c.cfg).map_err(|e| Failure::new("C06:generator", format!("{}: {e}", c.cfg.name)))?;
 	let name = c.cfg.name.as_str();
 	let cj = cfg.to_json();
@@ -641,6 +641,7 @@ pub fn def(tier: Tier) -> PropertyDef {
 		});
 		checks.push(pt(&format!("trend_signals_{name}"), tier.pick(60, 300), strat, run));
 	}
+	checks.extend(crate::fuzz_entry::corpus_checks("C06"));
 	PropertyDef {
 		id: "C06",
 		level: "exploration",
